@@ -7,7 +7,39 @@ ERR = 'ERR'
 
 
 def spec_map():
-    return {lx._id: lx.specifier() for lx in wn.lexicons()}
+    try:
+        return {lx._id: lx.specifier() for lx in wn.lexicons()}
+    except AttributeError:          # private attribute renamed: fall back to the public API
+        return {}
+
+
+def lexspec(x, smap):
+    """specifier of the lexicon an entity belongs to (fast path through the private rowid, public API otherwise)"""
+    try:
+        sp = smap.get(x._lexid)
+        if sp is not None:
+            return sp
+    except AttributeError:
+        pass
+    try:
+        return x.lexicon().specifier()
+    except Exception:               # noqa: BLE001  (placeholder synsets have no stored lexicon)
+        return '?'
+
+
+def rel_lexicon(r):
+    try:
+        return r._lexicon
+    except AttributeError:
+        return r.lexicon().specifier()
+
+
+def ili_of(ss):
+    try:
+        return ss._ili
+    except AttributeError:
+        i = ss.ili
+        return i.id if i is not None else None
 
 
 def _try(fn, *a):
@@ -30,7 +62,7 @@ def api_transcript(w, reltypes=(), smap=None, forms=()):
             return None
         if isinstance(x, str):
             return x
-        return f'{smap.get(x._lexid, "?")}|{x.id}'
+        return f'{lexspec(x, smap)}|{x.id}'
 
     T = {'lexicons': {}, 'words': {}, 'senses': {}, 'synsets': {}}
     for lx in w.lexicons():
@@ -67,7 +99,7 @@ def api_transcript(w, reltypes=(), smap=None, forms=()):
             rels = rm
         else:
             for r, t in rm.items():
-                rels.append([r.name, r.source_id, r.target_id, ent(t), r._lexicon, r.metadata()])
+                rels.append([r.name, r.source_id, r.target_id, ent(t), rel_lexicon(r), r.metadata()])
             rels.sort(key=repr)
         ssrels = []
         for t in reltypes:
@@ -85,8 +117,8 @@ def api_transcript(w, reltypes=(), smap=None, forms=()):
         ili = ss.ili
         rels = []
         for r, t in ss.relation_map().items():
-            rels.append([r.name, r.source_id, r.target_id, ent(t), r._lexicon, r.metadata(),
-                         t._ili if t.id == '*INFERRED*' else None])
+            rels.append([r.name, r.source_id, r.target_id, ent(t), rel_lexicon(r), r.metadata(),
+                         ili_of(t) if t.id == '*INFERRED*' else None])
         rels.sort(key=repr)
         mem = _try(ss.senses)
         T['synsets'][ent(ss)] = {
